@@ -16,6 +16,7 @@ pub struct Root<'gc, C> {
     pub c: C,
     pub kept: Vec<(u32, GcWeak<'gc, Payload>, Rc<Cell<u32>>)>,
     pub loose: Vec<(u32, GcWeak<'gc, Payload>, Rc<Cell<u32>>)>,
+    pub weak_only: Vec<(u32, GcWeak<'gc, Payload>, Rc<Cell<u32>>)>,
 }
 // The harness's own impl (trusted): the container goes through `Trace::trace` (as a nested
 // value would in a derived impl); the probes are weak.
@@ -23,7 +24,7 @@ unsafe impl<'gc, C: Collect<'gc>> Collect<'gc> for Root<'gc, C> {
     const NEEDS_TRACE: bool = true;
     fn trace<T: Trace<'gc>>(&self, cc: &mut T) {
         cc.trace(&self.c);
-        for (_, w, _) in self.kept.iter().chain(self.loose.iter()) {
+        for (_, w, _) in self.kept.iter().chain(self.loose.iter()).chain(self.weak_only.iter()) {
             cc.trace_gc_weak(GcWeak::erase(*w));
         }
     }
@@ -43,13 +44,14 @@ macro_rules! survive {
                 let $st = &mut state;
                 let c: $ty = $build;
                 let kept = std::mem::take(&mut $st.strong);
+                let weak_only = std::mem::take(&mut $st.weak_only);
                 // tokens that are stored nowhere
                 let mut loose = Vec::new();
                 for _ in 0..2 {
                     let (g, id, drops) = $st.token();
                     loose.push((id, Gc::downgrade(g), drops));
                 }
-                Root { c, kept, loose }
+                Root { c, kept, loose, weak_only }
             });
             arena.finish_cycle();
             arena.finish_cycle();
@@ -73,6 +75,11 @@ macro_rules! survive {
                         problems.push(format!("unstored token {} was not reclaimed (drops={})", id, drops.get()));
                     }
                 }
+                for (id, w, drops) in &root.weak_only {
+                    if w.upgrade(mc).is_some() || drops.get() != 1 || !w.is_dropped() {
+                        problems.push(format!("token {} is held only WEAKLY inside the container but was retained (drops={}, is_dropped={})", id, drops.get(), w.is_dropped()));
+                    }
+                }
                 root.kept.len()
             });
             $out.push(Outcome { name: $name.to_string(), kept, problems });
@@ -88,7 +95,8 @@ fn el1<'gc>(st: &mut State<'_, 'gc>) -> El<'gc> {
     let id = st.fresh();
     let (g1, t1, d1) = st.token();
     st.strong.push((t1, Gc::downgrade(g1), d1));
-    let (g2, _, _) = st.token();
+    let (g2, t2, d2) = st.token();
+    st.weak_only.push((t2, Gc::downgrade(g2), d2));
     El { id, s: [Some(g1), None], w: [Some(Gc::downgrade(g2)), None] }
 }
 fn pls<'gc>(st: &mut State<'_, 'gc>, n: usize) -> Vec<Pl> {
@@ -198,6 +206,12 @@ pub fn run_all(seed: u32, only: Option<String>) -> Vec<Outcome> {
         let a = el1(st);
         let b = el1(st);
         enum_map::EnumMap::from_fn(|k| if k { a } else { b })
+    });
+    // trait objects made collectable with dyn_collect!: strong tokens survive, weak-only tokens are not retained
+    survive!(out, seed, only, "dyn:Shape", (crate::cases::DynShape<'_>, Gc<'_, crate::cases::DynShape<'_>>), |st| {
+        let a: crate::cases::DynShape<'_> = Box::new(els(st, n));
+        let b: crate::cases::DynShape<'_> = Box::new((el1(st), Pl(0)));
+        (a, Gc::new(st.mc, b))
     });
     // the pointer types themselves: a Gc chain root -> Gc<Vec<El>> keeps the inner tokens alive
     survive!(out, seed, only, "crate::Gc", Gc<'_, Vec<El<'_>>>, |st| {
